@@ -67,9 +67,19 @@ class World(object):
             rest = YowStackBuilder.getDefaultLayers()[len(core_layers):]
             layers = tuple(core_layers) + (Rec,) + tuple(rest) + (YowInterfaceLayer, Top)
             self.profile = e2ekit.make_profile("49157703%05d" % World.N)
-            self.stack = YowStack(layers, reversed=False, props={"profile": self.profile,
-                                                                  YowInterfaceLayer.PROP_RECONNECT_ON_STREAM_ERR: reconnect_opt,
-                                                                  YowIqProtocolLayer.PROP_PING_INTERVAL: 1 if ping_opt else 0})
+            if World.N % 2 == 0:
+                # the way applications configure a stack: built first, options set afterwards - and it is not the only stack of the process:
+                # a second one, configured the opposite way, is set up right after it (its options are its own)
+                self.stack = YowStack(layers, reversed=False)
+                for k_, v_ in (("profile", self.profile), (YowInterfaceLayer.PROP_RECONNECT_ON_STREAM_ERR, reconnect_opt), (YowIqProtocolLayer.PROP_PING_INTERVAL, 1 if ping_opt else 0)):
+                    self.stack.setProp(k_, v_)
+                self.other_stack = YowStack((YowNetworkLayer, YowInterfaceLayer), reversed=False)
+                self.other_stack.setProp(YowInterfaceLayer.PROP_RECONNECT_ON_STREAM_ERR, not reconnect_opt)
+                self.other_stack.setProp(YowIqProtocolLayer.PROP_PING_INTERVAL, 0 if ping_opt else 1)
+            else:
+                self.stack = YowStack(layers, reversed=False, props={"profile": self.profile,
+                                                                      YowInterfaceLayer.PROP_RECONNECT_ON_STREAM_ERR: reconnect_opt,
+                                                                      YowIqProtocolLayer.PROP_PING_INTERVAL: 1 if ping_opt else 0})
             self.net, self.noise = self.stack.getLayer(0), self.stack.getLayer(2)
             n = 0
             while True:
